@@ -513,7 +513,7 @@ class Engine(Interp):
     def _sig(self, st, v, deep=False, depth=0):
         t = type(v)
         if t is I:
-            return ("i", v.ty, st.itv[v.vid], v.vid in st.taint)
+            return ("i", v.ty, st.itv[v.vid], st.taint.get(v.vid))
         if t is Fl:
             return ("f", v.lo, v.hi, v.nan)
         if t is Ag:
@@ -534,7 +534,7 @@ class Engine(Interp):
     def snapshot(self, st, v, out=None):
         out = {} if out is None else out
         for _, i in iter_ints(v):
-            out[i.vid] = (st.itv[i.vid], i.vid in st.taint)
+            out[i.vid] = (st.itv[i.vid], st.taint.get(i.vid))
         return out
 
     def instantiate(self, st, tmpl, snap):
